@@ -68,3 +68,152 @@ def dispatch_table(prog):
         if isinstance(s, ast.Assign) and src(s.targets[0]) == 'dispatch' and isinstance(s.value, ast.Dict):
             return {src(k).split('.')[-1]: src(v) for k, v in zip(s.value.keys, s.value.values)}, s
     raise AnchorMissing('dispatch table of CodegenVisitor.gencode not found')
+
+
+# ---------------------------------------------------------------------------------------------------------------------
+# injectivity of the structural hash (shared by C01 / C06 / C13)
+
+_INJECTIVE_CALLS = {'tuple', 'str', 'repr', 'frozenset_of_pairs'}
+_LOSSY_NODES = (ast.BoolOp, ast.Compare, ast.IfExp)
+
+
+def _self_attr_root(e):
+    """self.f[.g ...] -> 'f'"""
+    while isinstance(e, ast.Attribute):
+        if isinstance(e.value, ast.Name) and e.value.id == 'self':
+            return e.attr
+        e = e.value
+    return None
+
+
+def hash_key_coverage(prog, cls):
+    """(covered, lossy, method): attributes of self that enter the tuple returned by hash_key() through injective
+    operations only (the attribute itself, an attribute chain, .hash()/.hash_key() of it, tuple()/str() of it, a local
+    bound to one of those), and attributes that are mentioned but only inside information-destroying expressions
+    (boolean operators, comparisons, conditional expressions); lossy maps attribute -> offending expression node."""
+    m = prog.mro_lookup(cls, 'hash_key')
+    if m is None:
+        return set(), {}, None
+    local_defs = {}
+    for s in own_nodes(m.node):
+        if isinstance(s, ast.Assign) and len(s.targets) == 1 and isinstance(s.targets[0], ast.Name):
+            local_defs.setdefault(s.targets[0].id, []).append(s.value)
+    covered, lossy, unknown = set(), {}, {}
+
+    def mentioned(e):
+        return {n.attr for n in ast.walk(e) if isinstance(n, ast.Attribute) and isinstance(n.value, ast.Name) and n.value.id == 'self'}
+
+    def walk(e, depth=0):
+        if isinstance(e, (ast.Tuple, ast.List)):
+            for x in e.elts:
+                walk(x, depth)
+        elif isinstance(e, ast.Starred):
+            walk(e.value, depth)
+        elif isinstance(e, ast.BinOp) and isinstance(e.op, ast.Add):        # tuple concatenation
+            walk(e.left, depth)
+            walk(e.right, depth)
+        elif isinstance(e, ast.Attribute):
+            r = _self_attr_root(e)
+            if r is not None:
+                covered.add(r)
+        elif isinstance(e, ast.Call):
+            f = e.func
+            if isinstance(f, ast.Attribute) and f.attr in ('hash', 'hash_key') and not e.args:
+                walk(f.value, depth)
+            elif isinstance(f, ast.Name) and f.id in _INJECTIVE_CALLS and len(e.args) == 1:
+                walk(e.args[0], depth)
+            else:
+                for a in mentioned(e):
+                    unknown.setdefault(a, e)
+        elif isinstance(e, ast.Name) and depth < 4 and len(local_defs.get(e.id, [])) == 1:
+            walk(local_defs[e.id][0], depth + 1)
+        elif isinstance(e, ast.Constant):
+            pass
+        elif isinstance(e, _LOSSY_NODES):
+            for a in mentioned(e):
+                lossy.setdefault(a, e)
+            # a lossy expression over locals: look through the locals too
+            for n in ast.walk(e):
+                if isinstance(n, ast.Name) and len(local_defs.get(n.id, [])) == 1:
+                    for a in mentioned(local_defs[n.id][0]):
+                        lossy.setdefault(a, e)
+        else:
+            for a in mentioned(e):
+                unknown.setdefault(a, e)
+
+    from . import guards
+    for r in guards.returns_of(m.node):
+        if r.value is not None:
+            walk(r.value)
+    for a in covered:
+        lossy.pop(a, None)
+        unknown.pop(a, None)
+    return covered, {'lossy': lossy, 'unknown': unknown}, m
+
+
+_ORDER_DESTROYING = {'sorted', 'set', 'frozenset', 'sum', 'min', 'max', 'len', 'any', 'all'}
+
+
+def hash_combiners(prog):
+    """Every method `hash(self, child_hashes)` of Expr and its subclasses, with the way the child hashes enter the result:
+    yields (method, verdict, node, reason) with verdict in 'positional' | 'order-destroying' | 'dropped' | 'unknown'."""
+    out = []
+    classes = list(expr_classes(prog))
+    base = prog.cls(VF + '.Expr') if hasattr(prog, 'cls') else None
+    if base is not None and base not in classes:
+        classes.append(base)
+    for c in classes:
+        m = c.methods.get('hash')
+        if m is None:
+            continue
+        args = [a.arg for a in m.node.args.args]
+        if len(args) < 2:
+            continue
+        ch = args[1]
+        from .program import parent
+        uses = [n for n in ast.walk(m.node) if isinstance(n, ast.Name) and n.id == ch and isinstance(n.ctx, ast.Load)]
+        if not uses:
+            out.append((m, 'dropped', m.node, 'the child hashes do not enter the result'))
+            continue
+        for u in uses:
+            p = parent(u)
+            verdict, why = 'unknown', 'child hashes used in ' + src(p)[:80]
+            if isinstance(p, ast.BinOp) and isinstance(p.op, ast.Add):
+                verdict, why = 'positional', 'tuple concatenation keeps the order of the children'
+            elif isinstance(p, ast.Call) and u in p.args:
+                fn = call_name(p) or ''
+                if fn in _ORDER_DESTROYING:
+                    verdict, why = 'order-destroying', '%s(...) forgets which child is which' % fn
+                elif fn == 'tuple':
+                    gp = parent(p)
+                    if isinstance(gp, ast.Call) and (call_name(gp) or '') in _ORDER_DESTROYING:
+                        verdict, why = 'order-destroying', '%s(...) forgets which child is which' % call_name(gp)
+                    else:
+                        verdict, why = 'positional', 'tuple() keeps the order'
+                elif fn.endswith('.hash') or fn == 'hash':
+                    verdict, why = 'positional', 'passed on unchanged'
+            elif isinstance(p, ast.Subscript) and p.value is u:
+                verdict, why = 'dropped', 'only part of the child hashes is used: ' + src(p)
+            elif isinstance(p, (ast.Tuple,)):
+                verdict, why = 'positional', 'kept as one tuple element'
+            elif isinstance(p, ast.Starred):
+                verdict, why = 'positional', 'unpacked in order'
+            # a sorted(...) further out: tuple(sorted(child_hashes)) is caught above; sorted(x for x in child_hashes):
+            q = p
+            while q is not None and q is not m.node:
+                if isinstance(q, ast.Call) and (call_name(q) or '') in _ORDER_DESTROYING:
+                    verdict, why = 'order-destroying', '%s(...) forgets which child is which' % call_name(q)
+                    break
+                q = parent(q)
+            out.append((m, verdict, u, why))
+    return out
+
+
+def noncommutative_evidence(cls):
+    """String constants '-' or '/' compared with self.oper inside the class: the class represents non-commutative operators."""
+    for n in ast.walk(cls.node):
+        if isinstance(n, ast.Compare) and 'oper' in src(n.left):
+            for c in n.comparators:
+                if isinstance(c, ast.Constant) and c.value in ('-', '/'):
+                    return n
+    return None
